@@ -937,7 +937,18 @@ class Interp(object):
             return w_bitwise(op, a, b)
         if op in ("Shl", "Shr", "ShlUnchecked", "ShrUnchecked"):
             if b.val is None:
-                return wtop(a.width, a.signed)
+                # barrel shifter on the exact amount bits (amount taken modulo the width, as MIR Shl/Shr do)
+                nb = (a.width - 1).bit_length()
+                if any(x is None for x in b.bits[:nb]):
+                    return wtop(a.width, a.signed)
+                cur = a
+                for k in range(nb):
+                    sk = b.bits[k]
+                    if sk == ZERO:
+                        continue
+                    sh = w_shl(cur, 1 << k) if op.startswith("Shl") else w_shr(cur, 1 << k)
+                    cur = W(a.width, bits=[B.bite(sk, x, y) for x, y in zip(sh.all_bits(), cur.all_bits())], signed=a.signed)
+                return cur
             return w_shl(a, b.val) if op.startswith("Shl") else w_shr(a, b.val)
         if op in ("Add", "AddUnchecked"):
             return w_add(a, b)[0]
